@@ -85,6 +85,19 @@ func TestC10(t *testing.T) {
 		}
 	}
 	overLimitCases(newRng(1033), func(ty *Ty, d []byte) { do("overlimit", ty, d) })
+	{
+		gw := &gen{r: newRng(1034), maxElem: 4}
+		for _, ty := range wideContainers() {
+			for k := 0; k < 3; k++ {
+				data, err := flatEncode(flatOf(ty, gw.val(ty)))
+				if err != nil {
+					continue
+				}
+				do("wide", ty, data)
+				corrupt(gw.r, data, 6, func(tag string, d []byte) { do("wide-"+tag, ty, d) })
+			}
+		}
+	}
 	n := 260
 	if thorough() {
 		n = 5000
